@@ -115,6 +115,10 @@ class Lower:
             return z3.Const(f.args[0], s.sort())
         if op == 'ite':
             return z3.If(_cond_tab[f.args[0]], s._a(f.args[1]), s._a(f.args[2]))
+        if op == 'frombits':
+            k = ('frombits', f.args[0])
+            if k not in s.fn: s.fn[k] = z3.Const(f'frombits_{f.args[0]}', s.sort())
+            return s.fn[k]
         if op in ('sitofp', 'uitofp'):
             bv = _cond_tab[f.args[0]]
             if m == 'REAL' and s.abstract_int: return z3.Real(f'itofp_{f.args[0]}')
@@ -471,7 +475,7 @@ class Machine:
                 if not s.feasible(c): continue
                 v = s.load(t, Ptr(p.b, k))
                 r = v if (r is None or z3.is_true(c)) else s.ite(t, c, v, r)
-            if r is None: raise Unsupported('symbolic load with no feasible cell')
+            if r is None: raise Infeasible('symbolic load with no feasible cell (path condition excludes every cell)')
             return r
         if s.trace_loads: s.loads.append((p.b, o, n))
         c = b.cells.get(o)
@@ -479,7 +483,7 @@ class Machine:
             v = c[1]
             if isinstance(t, IntTy) and isF(v): return Bits(v)
             if isinstance(t, FloatTy) and isinstance(v, Bits): return v.f
-            if isinstance(t, FloatTy) and isBV(v): raise Unsupported('load double from symbolic int cell')
+            if isinstance(t, FloatTy) and isBV(v): return F('frombits', cond_key(v.e))      # double whose bit pattern is a symbolic integer (opaque to the real theory)
             if isinstance(t, FloatTy) and isinstance(v, int): return struct.unpack('<d', struct.pack('<Q', v))[0]
             return v
         if isinstance(t, (StructTy, ArrTy)):
